@@ -23,6 +23,9 @@ import (
 //	reset | conn P | disc P
 //	send T                      local status request to agent T (SendControlRequest in a goroutine)
 //	cancel id                   the caller of local request id gives up (its context is cancelled)
+//	sendfail T                  local request whose write to the next hop fails
+//	sendstall T / release T ok|fail   the write stalls (request registered, not yet on the wire) and later completes / fails
+//	sleep / wake                the agent's real enterSleep / exitSleep (all peers are disconnected by sleep)
 //	req P id T [path…]          CONTROL_REQUEST from peer P (T = 0: for this agent)
 //	resp P id ok|fail tag       CONTROL_RESPONSE from peer P; tag = number of the agent that answered
 //	answer: out=[…] pending=[ids] fwd=[id:peer …]
@@ -32,6 +35,11 @@ type c39Call struct {
 	id     uint64
 	done   chan string
 	cancel context.CancelFunc
+}
+
+type c39Stalled struct {
+	c    *c39Call
+	gate chan error
 }
 
 func c39Tag(data []byte) string {
@@ -60,6 +68,7 @@ func c39OK(b bool) string {
 func init() {
 	var w *c16World
 	var calls []*c39Call
+	stalledCalls := map[int][]c39Stalled{}
 	dump := func(items []string) string {
 		for _, s := range w.drain() {
 			switch s.f.Type {
@@ -97,6 +106,12 @@ func init() {
 			}
 			switch f[0] {
 			case "reset":
+				for _, l := range stalledCalls {
+					for _, sc := range l {
+						sc.gate <- fmt.Errorf("verif: reset")
+					}
+				}
+				stalledCalls = map[int][]c39Stalled{}
 				for _, c := range calls {
 					c.cancel()
 					<-c.done
@@ -111,9 +126,21 @@ func init() {
 			case "disc":
 				w.disconnect(c16Atoi39(f[1]))
 				return dump(nil)
-			case "send":
+			case "send", "sendstall", "sendfail":
+				// send: the request frame is written at once. sendstall: the write to the next hop stalls until
+				// `release`. sendfail: the write fails.
 				t := c16Atoi39(f[1])
 				before, _ := agent.C39Control(w.a)
+				var gate chan error
+				if f[0] != "send" && w.bufs[t] != nil {
+					gate = make(chan error, 1)
+					w.bufs[t].mu.Lock()
+					w.bufs[t].gate = gate
+					w.bufs[t].mu.Unlock()
+					if f[0] == "sendfail" {
+						gate <- fmt.Errorf("verif: write to peer failed")
+					}
+				}
 				ctx, cancel := context.WithCancel(context.Background())
 				c := &c39Call{done: make(chan string, 1), cancel: cancel}
 				go func() {
@@ -128,7 +155,7 @@ func init() {
 					}
 					c.done <- fmt.Sprintf("deliver:%d:%s:%s", resp.RequestID, c39OK(resp.Success), c39Tag(resp.Data))
 				}()
-				// the call either fails at once or registers a pending request and writes the frame
+				// the call fails at once, or registers a pending request and (unless stalled) writes the frame
 				deadline := time.Now().Add(8 * time.Second)
 				for {
 					select {
@@ -138,8 +165,9 @@ func init() {
 					default:
 					}
 					after, _ := agent.C39Control(w.a)
-					if len(after) > len(before) && w.bufs[t] != nil && w.bufs[t].Len() > 0 {
-						c.id = after[len(after)-1]
+					written := w.bufs[t] != nil && w.bufs[t].Len() > 0
+					stalled := f[0] == "sendstall" && w.bufs[t] != nil && w.bufs[t].isWaiting()
+					if len(after) > len(before) && (written || stalled) {
 						for _, x := range after {
 							found := false
 							for _, y := range before {
@@ -150,6 +178,9 @@ func init() {
 							}
 						}
 						calls = append(calls, c)
+						if stalled {
+							stalledCalls[t] = append(stalledCalls[t], c39Stalled{c, gate})
+						}
 						return dump(nil)
 					}
 					if time.Now().After(deadline) {
@@ -157,6 +188,47 @@ func init() {
 					}
 					time.Sleep(100 * time.Microsecond)
 				}
+			case "release": // release T ok|fail : the stalled write toward T completes / fails
+				t := c16Atoi39(f[1])
+				if len(stalledCalls[t]) == 0 {
+					return dump(nil)
+				}
+				sc := stalledCalls[t][0]
+				stalledCalls[t] = stalledCalls[t][1:]
+				if f[2] == "ok" {
+					sc.gate <- nil
+					deadline := time.Now().Add(8 * time.Second)
+					for w.bufs[t] == nil || w.bufs[t].Len() == 0 {
+						if time.Now().After(deadline) {
+							panic("release: frame not written")
+						}
+						time.Sleep(100 * time.Microsecond)
+					}
+					return dump(nil)
+				}
+				sc.gate <- fmt.Errorf("verif: write to peer failed")
+				var got string
+				select {
+				case got = <-sc.c.done:
+				case <-time.After(8 * time.Second):
+					got = "release-timeout"
+				}
+				sc.c.cancel()
+				for i, c := range calls {
+					if c == sc.c {
+						calls = append(calls[:i], calls[i+1:]...)
+						break
+					}
+				}
+				return dump([]string{got})
+			case "sleep": // the agent's real sleep transition: every peer connection is closed
+				must(agent.C39EnterSleep(w.a))
+				w.forgetPeers()
+				stalledCalls = map[int][]c39Stalled{}
+				return dump(nil)
+			case "wake":
+				must(agent.C39ExitSleep(w.a))
+				return dump(nil)
 			case "cancel": // the caller of local request <id> gives up (context cancelled / timed out)
 				id := c39U64(f[1])
 				for i, c := range calls {
@@ -224,6 +296,23 @@ func c39Gen(w *bufio.Writer, seed int64, tier string) {
 	n := 500
 	if tier == "thorough" {
 		n = 20000
+	}
+	// fixed cases (independent of the seed): overlapping local requests with a send FAILURE, and local
+	// requests across sleep / wake; responses in either order
+	for order := 0; order < 2; order++ {
+		resp := []string{"resp 5 2 ok 5", "resp 4 3 ok 4"}
+		if order == 1 {
+			resp = []string{"resp 4 3 ok 4", "resp 5 2 ok 5"}
+		}
+		fmt.Fprintf(w, "reset\nconn 4\nconn 5\nsendstall 4\nsend 5\nrelease 4 fail\nsend 4\n%s\n%s\n", resp[0], resp[1])
+		fmt.Fprintf(w, "reset\nconn 4\nconn 5\nsend 4\nsendfail 5\nsend 5\nresp 4 1 ok 4\nresp 5 3 ok 5\n")
+		fmt.Fprintf(w, "reset\nconn 4\nconn 5\nsendstall 4\nsend 5\nrelease 4 ok\nsend 4\nresp 4 1 ok 4\nresp 5 2 ok 5\nresp 4 3 ok 4\n")
+		late := []string{"resp 4 1 ok 4", "resp 5 2 ok 5"}
+		if order == 1 {
+			late = []string{"resp 5 2 ok 5", "resp 4 1 ok 4"}
+		}
+		fmt.Fprintf(w, "reset\nconn 4\nconn 5\nsend 4\nsleep\nwake\nconn 4\nconn 5\nsend 5\n%s\n%s\n", late[0], late[1])
+		fmt.Fprintf(w, "reset\nconn 1\nconn 4\nreq 1 7 4\nsend 4\nsleep\nwake\nconn 1\nconn 4\nsend 4\nresp 4 7 ok 4\nresp 4 1 ok 4\nresp 4 2 ok 4\n")
 	}
 	for c := 0; c < n; c++ {
 		fmt.Fprintf(w, "reset\n")
@@ -315,6 +404,39 @@ func c39Gen(w *bufio.Writer, seed int64, tier string) {
 				}
 			case x < 53 && own > 0:
 				fmt.Fprintf(w, "cancel %d\n", 1+uint64(r.intn(int(own))))
+			case x < 57:
+				// a local request whose write fails (the id is burnt), or stalls and then fails / completes
+				t := 1 + r.intn(np)
+				if !connected[t] {
+					continue
+				}
+				own++
+				switch r.intn(3) {
+				case 0:
+					fmt.Fprintf(w, "sendfail %d\n", t)
+				case 1:
+					fmt.Fprintf(w, "sendstall %d\n", t)
+					t2 := 1 + r.intn(np)
+					if t2 != t && connected[t2] {
+						fmt.Fprintf(w, "send %d\n", t2)
+						own++
+						inflight = append(inflight, fl{t2, own, t2})
+					}
+					fmt.Fprintf(w, "release %d fail\n", t)
+				default:
+					fmt.Fprintf(w, "sendstall %d\nrelease %d ok\n", t, t)
+					inflight = append(inflight, fl{t, own, t})
+				}
+			case x < 59:
+				// sleep / wake: every peer is gone, reconnects afterwards; requests in flight may still be answered
+				fmt.Fprintf(w, "sleep\nwake\n")
+				for p := 1; p <= np; p++ {
+					connected[p] = false
+					if r.chance(80) {
+						fmt.Fprintf(w, "conn %d\n", p)
+						connected[p] = true
+					}
+				}
 			case x < 85 && len(inflight) > 0:
 				i := 0
 				if r.chance(30) {
